@@ -1673,15 +1673,18 @@ class SQLObject(with_metaclass(declarative.DeclarativeMeta, object)):
                 continue
 
             query = []
-            restrict = False
+            restrict = []
             for _col in cols:
                 query.append(getattr(k.q, _col.name) == self.id)
                 if _col.cascade is False:
                     # Found a restriction
-                    restrict = True
+                    restrict.append(getattr(k.q, _col.name) == self.id)
             query = sqlbuilder.OR(*query)
             results = k.select(query, connection=self._connection)
-            if restrict and results.count():
+            # only rows that reference us through a cascade=False
+            # column restrict the delete
+            if restrict and k.select(sqlbuilder.OR(*restrict),
+                                     connection=self._connection).count():
                 # Restrictions only apply if there are
                 # matching records on the related table
                 raise SQLObjectIntegrityError(
